@@ -98,7 +98,8 @@ int main(void)
     fns = [f for _, pf in parts for f in pf]
     return {
         'targets': targets, 'vcs': vcs, 'functions': fns,
-        'decided': ['backtrack / LeMarechal / Fletcher(+zoom): success => advertised predicates were evaluated true on the current trial point with the returned step, and the state is the valid evaluation at x0+t*d; loops terminate (variant max_iterations - i)',
+        'decided': ['lsearchk_t::get exports the Armijo exit of its do_get (added for C02, f <= f0): under the ghost kind flag nv_ls_armijo_exit (the dynamic type is backtrack / LeMarechal / Fletcher / More-Thuente, whose every success exit is an Armijo exit; false for CG_DESCENT) success => Armijo was evaluated true on the returned state against the state on ENTRY of get, with the returned step and c1',
+                    'backtrack / LeMarechal / Fletcher(+zoom): success => advertised predicates were evaluated true on the current trial point with the returned step, and the state is the valid evaluation at x0+t*d; loops terminate (variant max_iterations - i)',
                     'IEEE semantics, every double t0 (NaN, +-inf included): the first trial step of lsearchk_t::get is finite and in [stpmin, 1] (std::clamp mapped exactly: NaN passes through it); t *= 0.3 keeps 0 <= t <= 1, t *= 3 keeps t >= 0 and a positive step positive; the step handed to do_get is finite and > 0; every do_get and get: success => the returned step is finite, whatever the interpolation kernels return (a NaN trial step gives an invalid state, which is never accepted)',
                     'the step handed to do_get is strictly positive in IEEE semantics (t *= 0.3 can underflow to 0: lsearchk_t::get refuses that since e2d1052; before, backtracking could return {true, 0}, see known_findings.txt)',
                     'acceptance predicates has_armijo / has_wolfe / has_strong_wolfe / has_approx_armijo / has_approx_wolfe / has_descent / dg equal the textbook formulas of the property over the reals (dot products opaque); has_descent (real body, IEEE comparisons) refuses a NaN slope and is the guard of lsearchk_t::get',
@@ -120,7 +121,8 @@ int main(void)
                         'More-Thuente: positivity of the returned step (the fallback `stp = stx` may hand back the origin; excluding it needs the numerics of dcstep)',
                         'CG_DESCENT: positivity of the returned step (secant / theta-combination numerics); its finiteness follows only by composition (success = converged() => valid tentative state at interval.step_size) because do_get is composed over the reals',
                         'finiteness proper: over the reals every value is finite; overflow of 0.5*(u.t+v.t) and NaN bracket ends are outside the real model'],
-        'assumptions': ['solver_state_t::update(x) makes the state the single evaluation at x (assumed contract)',
+        'assumptions': ['the ghost kind flag nv_ls_armijo_exit stands for virtual dispatch: the Armijo-exit clause of the common do_get contract (NV_ARMIJO_EXIT_CLAUSE) is the clause proved for backtrack_do_get / lemarechal_do_get / fletcher_do_get (CBMC) and advertised/morethuente_do_get (reals)',
+                        'solver_state_t::update(x) makes the state the single evaluation at x (assumed contract)',
                         'a valid trial state has a finite step: solver_state_t::valid() demands an all-finite point and every coordinate of x0 + t*d is non-finite for a non-finite t (the scalar IEEE fact is proved: ieee_point_lemma; its lifting to Eigen vectors is assumed)',
                         'parameters lie in their registered domains (0<c1<c2<1, 1<=max_iterations<=10000, tau1>2, 0<safeguard<0.5, 0<tau2<tau3<=0.5, 0<delta<1, 0<theta<1, ro>1, 0<gamma<1, epsilon>0)',
                         'in the protocol targets of back end A and in steps/, advertised/, mt/do_get the interpolation results (cubic / quadratic / secant / interpolate / dcstep outputs) are arbitrary values (havoc: those claims hold for every interpolation result); what the kernels compute is under interp/, mt/dcstep, lstep_interpolate_select',
